@@ -38,6 +38,17 @@ pub fn case(rng: &mut Rng, thorough: bool) -> String {
         }
     }
     let mut out = String::from("C09 ");
+    if rng.chance(1, 8) {
+        // grown upwards: the root is not slot 0 and slot 0 is an inner node
+        let part = rng.chance(1, 3);
+        t = crate::gen::uprooted(rng, &t, tp.out_dim, part);
+    } else if rng.chance(1, 6) {
+        // re-rooted arena: the root is not slot 0; `len()` counts the disconnected draft root as well (the documented
+        // exception to reachability), which the judge takes into account for the size hints
+        enc::ORPHAN.with(|o| o.set(Some(0)));
+        t = crate::gen::rerooted(rng, &t);
+        out.push_str("rerooted ");
+    }
     enc::afftree(&mut out, &t);
     // skip schedule
     let nsk = t.len() + 2;
